@@ -378,6 +378,8 @@ CORPUS = [
     ((2, 3), "td", ["transpose01", "idx_tail", "consolidate"]),
     # boolean-mask index under compile (torch.Size of a fake tensor in _getitem_batch_size, repaired in round 2)
     ((2, 3), "td", ["idx_bool_mask", "mul2"]),
+    # open finding C18-consolidate-unit-stride: a single-element leaf with a non-unit stride (compile branch of the contiguity test)
+    ((4, 2), "td", ["idx_head", "idx_ell0", "consolidate"]),
     # batch size spelled as a bare int 0 (seeded C18-2)
     ((3,), "td", ["construct_int0"]),
     # nested key whose sub-tuple unravels to one multi-character name (seeded C18-3)
@@ -442,7 +444,8 @@ def programs(run):
             run.count("prog.torch_bug", bug["id"])
             continue
         if e != c:
-            errsig = LAST_COMPILED_ERROR[0].split("\n")[0][:160] if c == "err" else ("eager-raises" if e == "err" else "values")
+            # one line, whitespace collapsed: the first lines of the compiled run's exception (dynamo wraps the cause)
+            errsig = " ".join(LAST_COMPILED_ERROR[0].split())[:420] if c == "err" else ("eager-raises" if e == "err" else "values")
             run.oracle_fail("program", {"shape": list(shape), "input": kind, "ops": ops, "backend": be},
                             f"eager={str(e)[:300]} compiled={str(c)[:300]} {LAST_COMPILED_ERROR[0][:200] if c == 'err' else ''}",
                             f"prog:{be}:{kind}:{','.join(ops)}|{errsig}")
